@@ -69,13 +69,14 @@ Definition ip6_of (h : list N) : ip6_t :=
   mk_ip6 (byte h 0) (byte h 1) (be_val (slice h 8 16)) (be_val (slice h 24 16)).
 Definition flag (h : list N) (bit : N) : bool := N.testbit (byte h 13) bit.
 (* the slow path loads the whole header; the fast path copies source, dest, seq, ack_seq, doff, rst, syn,
-   fin, window - and NOT ack *)
+   ack, fin, window (ack since the repair of the missing copy) *)
 Definition tcp_slow_of (h : list N) : tcp_t := mk_tcp (be16 h 0) (be16 h 2) (flag h 1) (flag h 4) (flag h 0) (flag h 2).
-Definition tcp_fast_of (h : list N) : tcp_t := mk_tcp (be16 h 0) (be16 h 2) (flag h 1) false (flag h 0) (flag h 2).
+Definition tcp_fast_of (h : list N) : tcp_t := mk_tcp (be16 h 0) (be16 h 2) (flag h 1) (flag h 4) (flag h 0) (flag h 2).
 Definition udp_of (h : list N) : udp_t := mk_udp (be16 h 0) (be16 h 2).
 (* tcp_listener_l4proto, evaluated on the header in the packet on both paths *)
 Definition tcp_listener (h : list N) : N := if flag h 1 && negb (flag h 4) then IPPROTO_TCP else 0.
 
+(* the context is only defined for ret >= 0: every caller drops on a negative return without reading it *)
 Inductive xres := XRet (r : Z) (l4 : N) | XDone (off nh l4 : N).
 
 (* ----- parse_transport_fast ----- *)
@@ -137,7 +138,7 @@ Definition parse_fast (eth : bool) (proto : N) (pull_fail : bool) (lin : N) (f :
         | Some h =>
             let ip := ip6_of h in
             match v6_ext_fast (N.to_nat IPV6_MAX_EXTENSIONS) lim f (off + 40) (byte h 6) (byte h 6) with
-            | XRet r l4 => if (r =? -1)%Z then ((-1)%Z, z_ctx) else (r, mk_pctx e z_ip4 ip 0 z_tcp z_udp 10 l4 0)
+            | XRet r l4 => if (r <? 0)%Z then (r, z_ctx) else (r, mk_pctx e z_ip4 ip 0 z_tcp z_udp 10 l4 0)
             | XDone off' nh l4 =>
                 if is_extension_header nh then ((- EFAULT)%Z, z_ctx)
                 else if nh =? IPPROTO_TCP then
@@ -220,7 +221,7 @@ Definition parse_slow (eth : bool) (proto : N) (f : frame) : Z * pctx :=
         | Some h =>
             let ip := ip6_of h in
             match v6_ext_slow (N.to_nat IPV6_MAX_EXTENSIONS) f (off + 40) (byte h 6) 0 with
-            | XRet r l4 => (r, mk_pctx e z_ip4 ip 0 z_tcp z_udp 10 l4 0)
+            | XRet r l4 => if (r <? 0)%Z then (r, z_ctx) else (r, mk_pctx e z_ip4 ip 0 z_tcp z_udp 10 l4 0)
             | XDone off' nh _ =>
                 if is_extension_header nh then ((- EFAULT)%Z, z_ctx)
                 else if nh =? IPPROTO_TCP then
